@@ -16,7 +16,7 @@ ObsIn(o) ==
   LET dom == Range(o.dom) IN
   [raised |-> o.raised, dom |-> dom,
    refs |-> [k \in dom |-> IF k \in DOMAIN o.refs THEN Range(o.refs[k]) ELSE {}],
-   vals |-> o.vals, hasdeps |-> o.hasdeps,
+   vals |-> [k \in DOMAIN o.vals |-> ValFromJson(o.vals[k])], hasdeps |-> o.hasdeps,
    rdeps |-> SetMap(o.rdeps)]
 
 Bad(r) ==
